@@ -84,6 +84,9 @@ def run_c07(F, R, tier):
     output_range(F, R, 'WelfordOnline', 0.0, float('inf'), 'RG-out')
     output_range(F, R, 'WelfordRolling', 0.0, float('inf'), 'RG-out')
     clip_rule(F, R)
+    # newest value <= Max, >= Min: the stored extremum always covers the newest value (X2) and is refreshed when the old one leaves (X1)
+    from .e_window import check_extrema
+    check_extrema(F, R, {'Min': 1, 'Max': 1})
     e_lti_props.fisher_feedback(F, R)
     e_rolling.drawdown(F, R)
     e_trend.net_rules(F, R, tier)
